@@ -4,7 +4,10 @@ pub mod error;
 
 pub use de::from_str;
 
+#[cfg(not(jbonsai_verif))]
 use std::collections::HashMap;
+#[cfg(jbonsai_verif)]
+type HashMap<K, V> = std::collections::HashMap<K, V, crate::verif::SeededState>;
 
 use serde::Deserialize;
 
